@@ -2061,3 +2061,51 @@ func init() {
 		return p
 	}
 }
+
+func init() {
+	// "c05lock": a leader's heartbeat tick and the end of its term at one virtual instant, with
+	// goroutines parked inside critical sections and in front of atomic operations: the term is ended
+	// - by ValidateTokenOrDemote on a cancelled context, by Stop/StopWithContext, by a grace period
+	// running out - exactly one heartbeat interval after the k-th refresh was issued, i.e. at the
+	// moment the next tick fires. Whatever the tick's goroutine has read before it is held up and
+	// whatever it reads afterwards must still make one consistent refresh (or none).
+	families["c05lock"] = func(r *Rng) *Plan {
+		p := &Plan{Judge: []string{"C05", "C08", "C19", "C01"}}
+		p.H = Pick(r, []time.Duration{100 * ms, 200 * ms, 500 * ms})
+		p.TTL = Pick(r, []time.Duration{3 * p.H, 5 * p.H})
+		p.Insts = mkInsts(r, 1+r.Intn(2), 1)
+		for i := range p.Insts {
+			p.Insts[i].V = Pick(r, []time.Duration{0, p.H, 2 * p.H})
+			p.Insts[i].NoMetrics = true
+			if r.Bool(0.3) {
+				p.Insts[i].HasHealth, p.Insts[i].HealthRest = true, "h"
+			}
+		}
+		p.Store = healthyStore(r, Pick(r, []time.Duration{2 * ms, p.H / 10}))
+		p.Actions = append(p.Actions, Action{At: 0, Kind: AStart, Inst: 0})
+		for i := 1; i < len(p.Insts); i++ {
+			p.Actions = append(p.Actions, Action{At: r.Dur(p.H, 2*p.H), Kind: AStart, Inst: i})
+		}
+		k := 1 + r.Intn(4)
+		switch r.Intn(4) {
+		case 0:
+			p.Actions = append(p.Actions, Action{Kind: AValidateOD, Inst: 0, CtxCancelled: true, OpKind: "update", OpN: k, Phase: "invoke", Delay: p.H})
+		case 1:
+			p.Actions = append(p.Actions, Action{Kind: AStop, Inst: 0, OpKind: "update", OpN: k, Phase: "invoke", Delay: p.H})
+		case 2:
+			p.Actions = append(p.Actions, Action{Kind: AStopCtx, Inst: 0, DeleteKey: r.Bool(0.5), OpKind: "update", OpN: k, Phase: "invoke", Delay: p.H})
+		default:
+			// a disconnect whose grace period (2H) runs out at the instant of tick k+1
+			p.Insts[0].Monitor, p.Insts[0].Grace = true, 2*p.H
+			if k < 2 {
+				k = 2
+			}
+			p.Actions = append(p.Actions, Action{Kind: ADisconnect, Inst: 0, OpKind: "update", OpN: k - 1, Phase: "invoke"})
+		}
+		p.Until = time.Duration(k+3)*p.H + p.TTL + sec
+		p.Tail = 0
+		statusCalls(r, p)
+		p.Sched = SchedCfg{YieldProb: Pick(r, []float64{0.5, 0.8}), StallMax: 0, InLock: Pick(r, []float64{0.4, 0.7})}
+		return p
+	}
+}
